@@ -69,7 +69,7 @@ CHECKS = {
    note=CORE_NOTE + "; batch sizes beyond a few messages are covered by C08's clone groups, not here", technique="TLA+ reference model + TLC-generated behaviours; per-step refinement check against the real database view", design="DESIGN.md section 5 C03"),
  "C04": dict(level="model_checking",
    text="GluonCore.tla action properties UidNextMonotone / NewUidAboveAllEver / UidDenotesOneMessage over a history variable; on replay every APPENDUID/COPYUID and every UID seen is recorded per mailbox and checked for reuse, order, UIDNEXT and that announced UIDs hold the announced message",
-   note=CORE_NOTE + "; UIDVALIDITY across delete/re-create and restarts is checked by the C04 namespace part when built", technique="TLA+ history-variable properties + replay with UID bookkeeping", design="DESIGN.md section 5 C04"),
+   note=CORE_NOTE + "; second half GluonValidity.tla: UIDVALIDITY per name across delete, re-create, UIDValidityBumped and restarts with the real epoch generator (known finding F16)", technique="TLA+ history-variable properties + replay with UID bookkeeping", design="DESIGN.md section 5 C04"),
  "C05": dict(level="model_checking",
    text="GluonCore.tla action properties NoExpungeDuringFetchStore / RemovalsAnnouncedWhenPermitted / RemovalBeforeReAdd and the modelled popResponders rule; on replay an EXPUNGE line received while FETCH/STORE is in progress is a violation and [EXPUNGEISSUED] must be present exactly when the model holds back a removal",
    note=CORE_NOTE, technique="TLA+ action properties + gated replay observing the command in progress", design="DESIGN.md section 5 C05"),
